@@ -9,10 +9,12 @@ structure DSt where
   mslots : FMap Nat   -- slot → token, by the model's results
   islots : FMap Nat   -- slot → token, by the implementation's results
   ok : Bool
+  dbOK : Bool := true      -- sessions.db can be written
+  faulted : Bool := false  -- some operation of this block ran while it could not
 
 def startNs : Nat := 946684800 * nsPerSec   -- synctest bubbles start at 2000-01-01T00:00:00Z
 
-def DSt.init : DSt := ⟨St.init 0 0 0, Spec.init 0 0 0, startNs, FMap.empty, FMap.empty, false⟩
+def DSt.init : DSt := ⟨St.init 0 0 0, Spec.init 0 0 0, startNs, FMap.empty, FMap.empty, false, true, false⟩
 
 def nAddrs : Nat := 16
 
@@ -50,8 +52,10 @@ def finish (d : DSt) (op : Op) (obsM : Obs) (st' : St) (implObs : Option Obs) (m
     let ok := specOK d.sp d.now op io
     let sp' := (specStep d.sp d.now op io).2
     let _ := obsM
-    ({ d with st := st', sp := sp', mslots := ms, islots := is },
-     verdict agree (if ok then none else some cls) mstr)
+    let cls' := if !noWrap d.sp d.now then cls ++ ":uint32-horizon"
+      else if d.faulted then cls ++ ":after-db-write-failure" else cls
+    ({ d with st := st', sp := sp', mslots := ms, islots := is, faulted := d.faulted || !d.dbOK },
+     verdict agree (if ok then none else some cls') mstr)
 
 def step1 (d : DSt) (line : String) : DSt × String :=
   let fs := splitTab line
@@ -62,17 +66,20 @@ def step1 (d : DSt) (line : String) : DSt × String :=
     | some (ins, impl) =>
       match op, ins.map String.toNat? with
       | "C12.reset", [some ma, some bm, some ttl, some _] =>
-        (⟨St.init ma bm ttl, Spec.init ma bm ttl, startNs, FMap.empty, FMap.empty, true⟩,
+        (⟨St.init ma bm ttl, Spec.init ma bm ttl, startNs, FMap.empty, FMap.empty, true, true, false⟩,
          verdict (impl == ["ok"]) none "ok")
       | "C12.sleep", [some ns] =>
         if !d.ok then (d, "bad-op") else
         ({ d with now := d.now + ns }, verdict (impl == ["ok"]) none "ok")
+      | "C12.dbfail", [some b] =>
+        if !d.ok || b > 1 then (d, "bad-op") else
+        ({ d with dbOK := b == 0 }, verdict (impl == ["ok"]) none "ok")
       | "C12.login", [some _, some peer, some _, some _, some _, some _, some _, some hdr, some tr,
                       some good, some user, some slot] =>
         if !d.ok || good > 1 || tr > 1 then (d, "bad-op") else
         -- 999 = no proxy header yielded an address
         let o := Op.login ⟨peer, if hdr == 999 then none else some hdr, tr == 1⟩ (good == 1) user
-        let r := step d.st d.now o
+        let r := stepF d.st d.now d.dbOK o
         let lr := match r.1 with | .login lr => lr | _ => .forbidden
         let ms := match lr with | .ok tok => d.mslots.set slot tok | _ => d.mslots
         let il := parseLogin impl
@@ -80,7 +87,7 @@ def step1 (d : DSt) (line : String) : DSt × String :=
         finish d o r.1 r.2 (il.map Obs.login) (showLogin lr ++ showDump r.2) impl "C12.throttle" ms is
       | "C12.req", [some slot] =>
         if !d.ok then (d, "bad-op") else
-        let r := step d.st d.now (.request ((d.mslots slot).getD (bogusTok slot)))
+        let r := stepF d.st d.now d.dbOK (.request ((d.mslots slot).getD (bogusTok slot)))
         let b := match r.1 with | .auth b => b | _ => false
         let io := match impl with
           | "1" :: _ => some (Obs.auth true) | "0" :: _ => some (Obs.auth false) | _ => none
@@ -88,14 +95,14 @@ def step1 (d : DSt) (line : String) : DSt × String :=
           ((if b then "1" else "0") :: showDump r.2) impl "C12.session" d.mslots d.islots
       | "C12.logout", [some slot] =>
         if !d.ok then (d, "bad-op") else
-        let r := step d.st d.now (.logout ((d.mslots slot).getD (bogusTok slot)))
+        let r := stepF d.st d.now d.dbOK (.logout ((d.mslots slot).getD (bogusTok slot)))
         finish d (.logout ((d.islots slot).getD (bogusTok slot))) r.1 r.2
           (match impl with | "ok" :: _ => some Obs.done | _ => none)
           ("ok" :: showDump r.2) impl "C12.session" d.mslots d.islots
       | "C12.restart", [] =>
         if !d.ok then (d, "bad-op") else
-        let r := step d.st d.now .restart
-        finish d .restart r.1 r.2 (match impl with | "ok" :: _ => some Obs.done | _ => none)
+        let r := stepF d.st d.now true .restart
+        finish { d with dbOK := true } .restart r.1 r.2 (match impl with | "ok" :: _ => some Obs.done | _ => none)
           ("ok" :: showDump r.2) impl "C12.session" d.mslots d.islots
       | _, _ => (d, "bad-op")
   | [] => (d, "bad-op")
